@@ -41,7 +41,22 @@ def check(prop: str, tier: str) -> int:
         # a broken tie or proof widens the search for a failing input
         ctx.deep = (not ctx.build["make_ok"]) or any(prop in u.get("props", []) for u in ctx.build["unrecognised"]) \
             or not ctx.audit.get("ok", False)
-        mod.run(ctx)
+        try:
+            mod.run(ctx)
+        except Exception as exc:
+            # An exception that comes out of the IMPLEMENTATION (a frame under REPO/src) while the harness drives it on an
+            # input of its own is an observation, not a harness error: on the unchanged tree no check raises.
+            import traceback as _tb
+            frames = _tb.extract_tb(exc.__traceback__)
+            impl = [f for f in frames if str(core.REPO / "src") in f.filename]
+            if not impl:
+                raise
+            where = impl[-1]
+            ctx.violation(f"impl_exception:{type(exc).__name__}@{where.name}",
+                          f"the implementation raised {type(exc).__name__}: {exc} in {where.filename.replace(str(core.REPO), '')}:{where.lineno} "
+                          f"({where.name}) while the harness was driving it; the remaining stages of this check did not run",
+                          {"exception": repr(exc), "traceback": _tb.format_exc()[-4000:],
+                           "harness_frame": next((f"{f.filename}:{f.lineno} {f.name}" for f in reversed(frames) if "/harness/" in f.filename), None)})
         meta = getattr(mod, "META", {})
         return core.finish(ctx, extra_trusted=meta.get("trusted", []), assumptions=meta.get("assumptions", []),
                            explanation=meta.get("rule", ""))
